@@ -72,6 +72,23 @@ theorem C01_table_consts : Generated.resetAll = RESET_ALL ∧ Generated.resetFg 
     Generated.styles = [("bold", 1), ("dark", 2), ("italic", 3), ("underline", 4), ("blink", 5), ("invert", 7)] := by
   decide +kernel
 
+/-- Python's `sorted()` order of the attribute names is the order `Chunk.colorStr` wraps in
+    (`Key.all`, the field order of `Atts`). -/
+theorem C01_table_order : Generated.sortedXformKeys =
+    ["bg", "blink", "bold", "dark", "fg", "invert", "italic", "underline"] ∧
+    Key.all = [.bg, .blink, .bold, .dark, .fg, .invert, .italic, .underline] := by decide
+
+/-- Whole-string form of `C01_only_sgr`: `str(f)` is the concatenation, run by run, of supported SGR sequences,
+    the run's text, supported SGR sequences - nothing else. -/
+theorem C01_only_sgr_string (f : FmtStr) :
+    render f = f.flatMap (fun c => (openCodes c.atts).flatMap seq ++ c.s ++ (closeCodes c.atts).flatMap seq) ∧
+    ∀ c ∈ f, (∀ n ∈ openCodes c.atts, n ∈ supported) ∧ (∀ n ∈ closeCodes c.atts, n ∈ supported) := by
+  refine ⟨?_, fun c _ => ⟨openCodes_supported c.atts, closeCodes_supported c.atts⟩⟩
+  unfold render
+  induction f with
+  | nil => rfl
+  | cons c f ih => simp only [List.flatMap_cons, ih, colorStr_eq]
+
 /-- Non-vacuity: a bold red-on-blue run with a newline next to an empty run and an explicitly non-bold run. -/
 example : display (render [⟨['a', '\n'], {fg := some 1, bg := some 4, bold := some true}⟩, ⟨[], {}⟩,
       ⟨['b'], {bold := some false, underline := some true}⟩])
